@@ -34,14 +34,19 @@ Defs == << <<"v", Vv>>, <<"B", Bb>> >>                \* evaluated before the cl
 \* leading-zero corners and password / salt classes
 Corners == {"none", "A", "B", "S"}
 \* "spaced": white space (ASCII and Unicode) at both ends belongs to the password; "blank": nothing but white space
-PwClasses == {"ascii", "multibyte", "long", "spaced", "blank"}
-SaltLens == {0, 8, 32, 64}
-Case(c, lz, pw, s1, s2) == [kind |-> "right-and-wrong", corner |-> c, lz |-> lz, pw |-> pw, salt1 |-> s1, salt2 |-> s2,
-                            defs |-> Defs, m1 |-> M1, s |-> Ss]
+PwClasses == {"ascii", "multibyte", "long", "huge", "spaced", "blank"}     \* "huge": longer than any fixed-size scratch buffer (1.5 KiB)
+SaltLens == {0, 8, 32, 64, 600}
+\* the group is a parameter the server sends with every request: Telegram's prime with several generators, and another
+\* 2048-bit safe prime (RFC 3526 group 14) with the same generators - nothing computed for one group may be used for another
+Groups == {"tg:3", "tg:2", "tg:7", "rfc3526:3", "rfc3526:2"}
+Case(c, lz, pw, s1, s2, grp) == [kind |-> "right-and-wrong", corner |-> c, lz |-> lz, pw |-> pw, salt1 |-> s1, salt2 |-> s2, group |-> grp,
+                                 defs |-> Defs, m1 |-> M1, s |-> Ss]
 BadB == {"zero", "p", "p+1", "short", "long"}
-Cases == SetToSeq({Case(c, IF c = "none" THEN 0 ELSE 1, pw, s1, s2) : c \in Corners, pw \in PwClasses, s1 \in {8, 32}, s2 \in {8}}
-                  \cup {Case("none", 0, "ascii", s1, s2) : s1 \in SaltLens, s2 \in SaltLens}
-                  \cup {Case(c, 2, "ascii", 8, 8) : c \in IF MaxLZ >= 2 THEN {"A", "B", "S"} ELSE {"B"}})
+Cases == SetToSeq({Case(c, IF c = "none" THEN 0 ELSE 1, pw, s1, s2, "tg:3") : c \in Corners, pw \in PwClasses, s1 \in {8, 32}, s2 \in {8}}
+                  \cup {Case("none", 0, "ascii", s1, s2, "tg:3") : s1 \in SaltLens, s2 \in SaltLens}
+                  \cup {Case("none", 0, pw, 8, 8, grp) : pw \in {"ascii", "multibyte"}, grp \in Groups}
+                  \cup {Case(c, 1, "ascii", 8, 8, grp) : c \in {"A", "B", "S"}, grp \in {"rfc3526:3", "tg:2"}}
+                  \cup {Case(c, 2, "ascii", 8, 8, "tg:3") : c \in IF MaxLZ >= 2 THEN {"A", "B", "S"} ELSE {"B"}})
          \o SetToSeq({[kind |-> "bad-B", b |-> x, defs |-> Defs] : x \in BadB})
          \o <<[kind |-> "empty-password", defs |-> Defs]>>
 ASSUME ndJsonSerialize(IOEnv.VERIF_OUT, Cases)
